@@ -6,9 +6,12 @@ package harness
 
 import (
 	"fmt"
+	"math/big"
 	"strconv"
 	"strings"
 	"testing"
+
+	"github.com/go-python/gpython/py"
 )
 
 const c13Prelude = `_res = []
@@ -271,5 +274,111 @@ func TestC13(t *testing.T) {
 			r.Mismatch(&Case{Kind: "pydiff", Sig: tp.name + ":" + d.Sig, Program: prog, Vars: c13Vars, Expected: d.Expected, Actual: d.Actual, Detail: d.Detail})
 		}
 	}
+	if r.Shard == 0 {
+		c13API(r)
+	}
 	r.SetExhaustive(true)
+}
+
+// c13API: index objects of every kind through the Go API (py.GetItem / SetItem / DelItem): small indices held as
+// BigInt, bools, and objects with __index__ must select the same element as the plain int.
+func c13API(r *Run) {
+	ctx, _ := NewCtx(nil, nil)
+	defer ctx.Close()
+	mod, err := ctx.Store().NewModule(ctx, &py.ModuleImpl{Info: py.ModuleInfo{Name: "c13api", FileDesc: "<c13>"}})
+	if err != nil {
+		r.Infra("%v", err)
+	}
+	code, err := py.Compile("class WI:\n    def __init__(self, v):\n        self.v = v\n    def __index__(self):\n        return self.v\n", "<c13>", py.ExecMode, 0, true)
+	if err != nil {
+		r.Infra("%v", err)
+	}
+	if _, err := ctx.RunCode(code, mod.Globals, mod.Globals, nil); err != nil {
+		r.Infra("%v", err)
+	}
+	wiType := mod.Globals["WI"]
+	mk := func(kind string, v int64) py.Object {
+		switch kind {
+		case "bigint":
+			return (*py.BigInt)(big.NewInt(v))
+		case "index-object":
+			o, err := py.Call(wiType, py.Tuple{py.Int(v)}, nil)
+			if err != nil {
+				r.Infra("%v", err)
+			}
+			return o
+		}
+		return py.Int(v)
+	}
+	seqs := map[string]func() py.Object{
+		"list":  func() py.Object { return py.NewListFromItems([]py.Object{py.Int(10), py.Int(11), py.Int(12), py.Int(13)}) },
+		"tuple": func() py.Object { return py.Tuple{py.Int(10), py.Int(11), py.Int(12), py.Int(13)} },
+		"str":   func() py.Object { return py.String("aé€z") },
+		"range": func() py.Object { return &py.Range{Start: 3, Stop: 11, Step: 2, Length: 4} },
+	}
+	outcome := func(o py.Object, err error, pclass string) string {
+		if pclass != "" {
+			return "panic:" + pclass
+		}
+		if err != nil {
+			cls, _ := ErrClass(err)
+			return "exc:" + cls
+		}
+		return Enc(o)
+	}
+	for sname, mkseq := range seqs {
+		for v := int64(-6); v <= 6; v++ {
+			var base string
+			for _, kind := range []string{"int", "bigint", "index-object"} {
+				var o py.Object
+				var err error
+				pclass, _, _ := Protect(func() { o, err = py.GetItem(mkseq(), mk(kind, v)) })
+				got := outcome(o, err, pclass)
+				r.Count(fmt.Sprintf("api:%s:%s:%d", sname, kind, v), kind != "int")
+				if kind == "int" {
+					base = got
+					continue
+				}
+				if got != base {
+					r.Mismatch(&Case{Kind: "c13api", Sig: "api:getitem:" + sname + ":" + kind, Args: map[string]interface{}{"seq": sname, "kind": kind, "index": v}, Expected: base, Actual: got,
+						Detail: fmt.Sprintf("py.GetItem(%s, %s(%d)) differs from the plain int index", sname, kind, v)})
+				}
+				// slices with the same kind of bounds
+				var so py.Object
+				var serr error
+				p2, _, _ := Protect(func() { so, serr = py.GetItem(mkseq(), py.NewSlice(mk(kind, v), py.None, py.None)) })
+				var bo py.Object
+				var berr error
+				p3, _, _ := Protect(func() { bo, berr = py.GetItem(mkseq(), py.NewSlice(py.Int(v), py.None, py.None)) })
+				enc := func(o py.Object, e error, p string) string {
+					if rg, ok := o.(*py.Range); ok && e == nil && p == "" {
+						var items []string
+						py.Iterate(rg, func(it py.Object) bool { items = append(items, Enc(it)); return false })
+						return "range" + fmt.Sprint(items)
+					}
+					return outcome(o, e, p)
+				}
+				if a, b := enc(so, serr, p2), enc(bo, berr, p3); a != b {
+					r.Mismatch(&Case{Kind: "c13api", Sig: "api:slice:" + sname + ":" + kind, Args: map[string]interface{}{"seq": sname, "kind": kind, "index": v}, Expected: b, Actual: a,
+						Detail: fmt.Sprintf("py.GetItem(%s, slice(%s(%d), None)) differs from the plain int bound", sname, kind, v)})
+				}
+			}
+		}
+	}
+	r.Class("go-api-index-kinds")
+}
+
+func init() {
+	replayers["c13api"] = func(c *Case) (string, string, error) {
+		// the enumeration is tiny and deterministic: re-run it in triage style and look for the same signature
+		rr := &Run{Prop: "C13", KF: &Findings{switches: map[string]string{}}, Triage: true, hashes: map[uint64]struct{}{}, classes: map[string]int64{}, excluded: map[string]int64{},
+			knownHits: map[string]int64{}, fenced: map[string]int64{}, extra: map[string]interface{}{}, triage: map[string]*triageEnt{}}
+		c13API(rr)
+		for sig, e := range rr.triage {
+			if sig == c.Sig || c.Sig == "" {
+				return sig, e.Example.Detail + ": expected " + e.Example.Expected + " actual " + e.Example.Actual, nil
+			}
+		}
+		return "", "", nil
+	}
 }
